@@ -4,6 +4,7 @@ CONSTANTS
   MantSet <- StructuredMants
   FloatSet <- FloatDomR
   TableExps = {0}
+  EncTables = {"int"}
   SparseExps = {1, 2, 31, 32, 62, 63}
-INVARIANTS DecValuePreserved DecTerminates DecClosedForm EncValuePreserved EncClosedForm ExactWhenRepresentable Monotone RowOK
+INVARIANTS EncRowOK EncLemmas DecValuePreserved DecTerminates DecClosedForm EncValuePreserved EncClosedForm ExactWhenRepresentable Monotone RowOK
 CHECK_DEADLOCK FALSE
